@@ -21,7 +21,7 @@ var c10Keys = []string{
 
 // the labels an operation addressed to (bucket, key) may change
 func c10Addressed(b, k string) []string {
-	out := []string{"o|" + b + "|" + k + "\x00", "l|" + b + "|" + k + "\x00", "f|" + b + "|", "b|" + b + "\x00"}
+	out := []string{"o|" + b + "|" + k + "\x00", "l|" + b + "|" + k + "\x00", "f|" + b + "|", "b|" + b + "\x00", "u|" + b + "|" + k + "\x00"}
 	if t := strings.TrimLeft(k, "/"); strings.Contains(t, "/") {
 		out = append(out, "p|"+b+"|"+t[:strings.Index(t, "/")+1]+"\x00") // the common prefix the key is grouped under
 	} else if t != k {
@@ -46,6 +46,17 @@ func c10Snapshot(s *Sess, buckets []string) []string {
 			}
 		} else {
 			add("l|"+b+"|", fmt.Sprint("list-status-", lr.Status))
+		}
+		// pending multipart uploads of the bucket, with the parts each holds
+		if ur := do(s.h, Req{Method: "GET", Path: "/" + pathEscape(b) + "?uploads"}); ur.Status == 200 {
+			for _, blk := range xmlBlocks(string(ur.Body), "Upload") {
+				ks, ids := xmlAll(blk, "Key"), xmlAll(blk, "UploadId")
+				if len(ks) == 0 || len(ids) == 0 {
+					continue
+				}
+				pr := do(s.h, Req{Method: "GET", Path: "/" + pathEscape(b) + "/" + pathEscape(ks[0]) + "?uploadId=" + queryEscape(ids[0])})
+				add("u|"+b+"|"+ks[0]+"\x00"+ids[0], fmt.Sprint(pr.Status, xmlAll(string(pr.Body), "PartNumber"), xmlAll(string(pr.Body), "ETag"), xmlAll(string(pr.Body), "Size")))
+			}
 		}
 		// the grouped view: a common prefix has to come from a key (probed above) and go with it
 		if dr := do(s.h, Req{Method: "GET", Path: "/" + pathEscape(b) + "?delimiter=%2F"}); dr.Status == 200 {
@@ -158,6 +169,7 @@ func runC10(tier string, seed uint64) {
 				s.Put(b, "n", []byte("N-"+b), nil)
 			}
 			stored := map[string][]string{}
+			var pending [][3]string // bucket, key, upload id
 			// an object uploaded with every kind of header a copy treats specially (the ACL is not carried
 			// over; the rest is): it is the source of the first copy of every history
 			s.Put(buckets[0], "lead", []byte("copy-source"), []KV{{"X-Amz-Acl", "public-read"}, {"X-Amz-Meta-Src", "1"}, {"Content-Type", "text/x-src"}, {"X-Amz-Storage-Class", "STANDARD"}})
@@ -175,7 +187,7 @@ func runC10(tier string, seed uint64) {
 				for step, f := range []func() Resp{func() Resp { return s.MkBucket("bkc") }, func() Resp { return s.RmBucket("bkc") }} {
 					r := f()
 					after := c10Snapshot(s, probe)
-					emit("c10", "FRAME", joinHex([]string{"e|bkc|", "l|bkc|", "p|bkc|", "o|bkc|", "b|bkc\x00", "f|bkc|"}), boolField(r.Status >= 400), strings.Join(before, ","), strings.Join(after, ","),
+					emit("c10", "FRAME", joinHex([]string{"e|bkc|", "l|bkc|", "p|bkc|", "o|bkc|", "b|bkc\x00", "f|bkc|", "u|bkc|"}), boolField(r.Status >= 400), strings.Join(before, ","), strings.Join(after, ","),
 						hs(fmt.Sprintf("%s %s of the empty bucket \"bkc\" next to \"bkc2\" and \"bkc.x\" status=%d", kind, []string{"creation", "deletion"}[step], r.Status)))
 					before = after
 				}
@@ -259,13 +271,42 @@ func runC10(tier string, seed uint64) {
 						continue
 					}
 					r = s.MkBucket(b)
-					addressed = []string{"e|" + b + "|", "l|" + b + "|", "p|" + b + "|", "o|" + b + "|", "b|" + b + "\x00", "f|" + b + "|"}
+					addressed = []string{"e|" + b + "|", "l|" + b + "|", "p|" + b + "|", "o|" + b + "|", "b|" + b + "\x00", "f|" + b + "|", "u|" + b + "|"}
 				case w < 95:
 					if isSingle(kind) {
 						continue
 					}
 					r = s.RmBucket(b)
-					addressed = []string{"e|" + b + "|", "l|" + b + "|", "p|" + b + "|", "o|" + b + "|", "b|" + b + "\x00", "f|" + b + "|"}
+					addressed = []string{"e|" + b + "|", "l|" + b + "|", "p|" + b + "|", "o|" + b + "|", "b|" + b + "\x00", "f|" + b + "|", "u|" + b + "|"}
+				case w < 97:
+					// multipart: start an upload on the key and give it a part ...
+					if id := s.Initiate(b, k, nil); id != "" {
+						s.UploadPart(b, k, id, 1, []byte(fmt.Sprintf("part-%d-%d", i, j)))
+						pending = append(pending, [3]string{b, k, id})
+					}
+				case w < 99 && len(pending) > 0:
+					// ... and use the id of an upload through ANOTHER key of its bucket: whatever the request
+					// (part upload, part listing, abort, complete), it is not this key's upload
+					u := pending[rng.Intn(len(pending))]
+					b = u[0]
+					if k == u[1] {
+						k = k + "-other"
+					}
+					addressed = c10Addressed(b, k)
+					switch rng.Intn(4) {
+					case 0:
+						s.UploadPart(b, k, u[2], 1, []byte("intruder"))
+						r = Resp{Status: 404} // the frame below demands "nothing changed" for any answer but success on this key's own upload
+					case 1:
+						r = s.ListParts(b, k, u[2], -1, -1).Resp
+					case 2:
+						r = s.Abort(b, k, u[2])
+					default:
+						r = s.Complete(b, k, u[2], []CPart{{1, "\"00000000000000000000000000000000\""}})
+					}
+					if r.Status < 400 {
+						emit("c10", "BAD", hs(fmt.Sprintf("S:upload-of-another-key-addressed %s: a multipart request for key %q with the upload id of key %q answers %d", kind, k, u[1], r.Status)))
+					}
 				default:
 					s.List(ListReq{Bucket: b, MaxKeys: -1})
 					addressed = nil
@@ -289,7 +330,7 @@ func runC10(tier string, seed uint64) {
 				rq := Req{Method: "DELETE", Path: "/" + fb, Header: [][2]string{{"x-minio-force-delete", "true"}}}
 				r := do(s.h, rq)
 				after := c10Snapshot(s, probe)
-				emit("c10", "FRAME", joinHex([]string{"e|" + fb + "|", "l|" + fb + "|", "p|" + fb + "|", "o|" + fb + "|", "b|" + fb + "\x00", "f|" + fb + "|"}), "0", strings.Join(before, ","), strings.Join(after, ","),
+				emit("c10", "FRAME", joinHex([]string{"e|" + fb + "|", "l|" + fb + "|", "p|" + fb + "|", "o|" + fb + "|", "b|" + fb + "\x00", "f|" + fb + "|", "u|" + fb + "|"}), "0", strings.Join(before, ","), strings.Join(after, ","),
 					hs(fmt.Sprintf("%s force-delete of bucket %q status=%d", kind, fb, r.Status)))
 			}
 			s.end()
